@@ -160,6 +160,12 @@ fn main() {
             writeln!(out, "{}", res).unwrap();
             continue;
         }
+        if mode == "serialize" {
+            let spec: serde_json::Value = serde_json::from_str(&line).unwrap();
+            let res = guarded(move || format!("OK {}", scenario::serialize(&spec)));
+            writeln!(out, "{}", res).unwrap();
+            continue;
+        }
         if mode == "convert" {
             let spec: serde_json::Value = serde_json::from_str(&line).unwrap();
             let res = guarded(move || format!("OK {}", scenario::convert(&spec)));
